@@ -9,7 +9,7 @@ def mk(kind, n, timeout=900, solver=None, imax=9, cap=None, alph8=False):
     capdef = (["-DCAP=%d" % cap] if cap is not None else []) + (["-DALPH8=1"] if alph8 else [])
     return Case("kind%d-n%d%s%s" % (kind, n, "-cap%d" % cap if cap is not None else "", "-alph8" if alph8 else ""), H, SRCS, defs=["-DKIND=%d" % kind, "-DN=%d" % n, "-DIMAX=%d" % imax] + capdef, unwind=max(n, imax + 1) + 3,
                 unwindset={"SCPI_RegSet.0": 4, "SCPI_ErrorPushEx.0": 10, "vm_scan.0": 2, "vm_scan.1": n + 1,
-                           "SCPI_ExprChannelListEntry.0": imax + 2, "SCPI_ExprNumericListEntry.0": imax + 2, "channelSpec.0": n // 2 + 2}, timeout=timeout, solver=solver,
+                           "SCPI_ExprChannelListEntry.0": imax + 2, "SCPI_ExprNumericListEntry.0": imax + 2, "channelSpec.0": n // 2 + 2}, timeout=timeout, solver=solver, mem_est=(12 if n >= 7 else 5),
                 remove_bodies=["SCPI_ParamToInt32"] if kind in (2, 3) else [], link_stubs=["SCPI_ParamToInt32"] if kind in (2, 3) else [],
                 functions=[KIND[kind], "numericRange", "channelSpec", "channelRange", "scpiLex_DecimalNumericProgramData",
                            "scpiLex_Colon", "scpiLex_Comma", "scpiLex_SpecificCharacter", "SCPI_ParamToInt32"],
@@ -36,11 +36,11 @@ def cases(tier):
         sh = [shaped(d1, d2, 2) for d1 in (1, 2, 3) for d2 in (0, 1, 2, 3)]
         return [mk(1, 6, imax=4), mk(2, 6, imax=4)] + [mk(3, 6, imax=2, cap=c) for c in (0, 1, 2)] + sh
     sh = [shaped(d1, d2, cap, 3000) for d1 in (1, 2, 3) for d2 in (0, 1, 2, 3) for cap in (0, 1, 3)]
-    return sh + [mk(1, 8, 6000), mk(2, 8, 6000)] + [mk(3, 7, 9000, None, imax=4, cap=c) for c in (0, 1, 2, 3, 4)]
+    return sh + [mk(1, 8, 6000), mk(2, 8, 6000)] + [mk(3, 6, 9000, None, imax=4, cap=c) for c in (0, 1, 2, 3, 4)]
 
 
 META = dict(
-    bounds=dict(body_len="numeric lists 0..6 quick / 0..8 thorough; channel lists 0..6 quick / 0..7 thorough, plus shaped channel entries of up to 3x3 dimensions with symbolic digits", index="0..4 (numeric), 0..2 (channel) quick; 0..9 / 0..4 thorough", capacity="0..2 quick, 0..4 thorough"),
+    bounds=dict(body_len="numeric lists 0..6 quick / 0..8 thorough; channel lists 0..6 (index 0..2 quick, 0..4 thorough), plus shaped channel entries of up to 3x3 dimensions with symbolic digits", index="0..4 (numeric), 0..2 (channel) quick; 0..9 / 0..4 thorough", capacity="0..2 quick, 0..4 thorough"),
     outside=["expression bodies longer than the bound", "double-valued variant SCPI_ExprNumericListEntryDouble (same walker; "
              "value conversion is libc strtod, see C04)", "integer values with more than the bounded digits"],
     assumptions=["the parameter is a PROGRAM_EXPRESSION token over a NUL-terminated buffer (as produced by the parameter reader)"],
